@@ -60,7 +60,7 @@ CHECKS = {
             cfg(name='registry', Depth=3, SeedIds=[0, 1, 2, 3, 6], Names=['', 'a', 'b'], Ops1=ALL14, Ops2=ALL14, OpsN=ALL14 + ['teardown']),
             cfg(name='kinds', Depth=3, SeedIds=[0, 5], Kinds=['V', 'HE', 'M'], Types=['int', 'bool'], Names=['', 'a'],
                 Ops1=ALL14, Ops2=ALL14, OpsN=ALL14 + ['teardown']),
-            cfg(name='lifetimes', Depth=5, SeedIds=[1, 2, 3, 4], Kinds=['V'], Types=['int'], Names=['a'], Overwrite=True, NM=3, NS=9,
+            cfg(name='lifetimes', Depth=5, SeedIds=[1, 2, 4], Kinds=['V'], Types=['int'], Names=['a'], Overwrite=True, NM=3, NS=9,
                 Ops1=LIFE, Ops2=LIFE, OpsN=['h_drop', 'mesh_destroy', 'clear', 'mesh_assign', 'teardown']),
         ],
         sim=dict(ops=ALL14, SeedIds=[0, 1, 2, 3, 4, 5, 6], NM=3, NS=10, NH=4, Kinds=['V', 'HE', 'M'], Types=['int', 'bool'],
